@@ -519,6 +519,48 @@ BASE_FEATURES = {"map", "flist", "bigflags"}
 NUMERIC = ["u8", "s8", "u16", "s16", "u32", "s32", "u64", "s64", "f32", "f64"]
 
 
+WIDTHS = ["u8", "s8", "u16", "s16", "u32", "s32", "u64", "s64", "f32", "f64"]
+
+
+def mixed_tuple(rng):
+    """tuple of 3-4 numeric fields of different widths (the shapes whose Rust layout differs from the canonical one)"""
+    n = rng.choice([3, 3, 4])
+    while True:
+        fs = [rng.choice(WIDTHS) for _ in range(n)]
+        if len({f[1:] for f in fs}) >= 2: break
+    return "tuple<" + ", ".join(fs) + ">"
+
+
+def canon_boundary_elem(rng, g, resource=False):
+    """element type on the boundary of the canonical-list rule (`is_list_canonical`): all-bits-valid shapes with and
+    without a tuple / handle *somewhere inside* (record field, nested record, fixed-length list, alias)"""
+    k = rng.choice(["rec-tuple", "flist-tuple", "alias-tuple", "nested-rec-tuple", "rec-plain", "flist-plain",
+                    "nested-rec-plain", "tuple", "rec-flist-tuple"] + (["rec-handle"] if resource else []))
+    g.count("canon-boundary:" + k)
+    def rec(fields):
+        name = g.fresh("r")
+        g.defs.append((name, f"record {name} {{ " + ", ".join(f"f{i}: {t}" for i, t in enumerate(fields)) + " }"))
+        return name
+    num = lambda: rng.choice(WIDTHS)
+    if k == "rec-tuple": return rec([num(), mixed_tuple(rng)])
+    if k == "flist-tuple": return f"list<{mixed_tuple(rng)}, {rng.choice([1, 2, 3])}>"
+    if k == "alias-tuple":
+        name = g.fresh("t")
+        g.defs.append((name, f"type {name} = {mixed_tuple(rng)}"))
+        if rng.random() < 0.5:
+            n2 = g.fresh("t")
+            g.defs.append((n2, f"type {n2} = {name}"))
+            return n2
+        return name
+    if k == "nested-rec-tuple": return rec([num(), rec([mixed_tuple(rng), num()])])
+    if k == "rec-flist-tuple": return rec([f"list<{mixed_tuple(rng)}, 2>", num()])
+    if k == "rec-plain": return rec([num(), num(), num()])
+    if k == "flist-plain": return f"list<{num()}, {rng.choice([1, 2, 3, 5])}>"
+    if k == "nested-rec-plain": return rec([num(), rec([num(), f"list<{num()}, 2>"]), num()])
+    if k == "rec-handle": return rec([num(), "res"])
+    return mixed_tuple(rng)
+
+
 def gen_iface(rng, name, nfuncs, features, max_depth, max_params, imported, no_string_results, stats):
     """one interface.  Restrictions that keep the generated *Rust* compilable (each is a recorded
     finding of its own, see known_findings.jsonl C05 / README):
@@ -547,6 +589,9 @@ def gen_iface(rng, name, nfuncs, features, max_depth, max_params, imported, no_s
                 g.features.add("flist")
             else:
                 t = g.ty(rng.choice([0, 1, 2]), True)
+            if rng.random() < 0.15:
+                t = f"list<{canon_boundary_elem(rng, g, 'resource' in features and not imported)}>"
+                if rng.random() < 0.2: t = f"option<{t}>"
             params.append(f"p{j}: {t}")
         res = ""
         if rng.random() < 0.8:
@@ -560,6 +605,8 @@ def gen_iface(rng, name, nfuncs, features, max_depth, max_params, imported, no_s
                     witgen.PRIMS, witgen.KEYS = sp, sk
             else:
                 res = f" -> {g.ty(rng.choice([0, 1]), False)}"
+            if rng.random() < 0.15:
+                res = f" -> list<{canon_boundary_elem(rng, g)}>"
         funcs.append(f"  f{i}: func({', '.join(params)}){res};")
     for k2, v in g.stats.items():
         stats[k2] = stats.get(k2, 0) + v
